@@ -12,6 +12,11 @@ import time
 
 ROOT = os.path.dirname(os.path.dirname(os.path.abspath(__file__)))
 PY = "/venv/bin/python"
+# The registered commands always test /repo.  PGV_REPO / PGV_OUT_DIR exist only so
+# that a seeded change can be tried in a scratch worktree without touching /repo or
+# the committed evidence.
+REPO = os.environ.get("PGV_REPO", "/repo")
+OUT = os.environ.get("PGV_OUT_DIR", ROOT)
 MAX_SAMPLES = 6
 
 
@@ -137,7 +142,8 @@ def ensure_deps():
 
 def worker_env():
     env = dict(os.environ)
-    env["PYTHONPATH"] = "/repo:" + ROOT + ":" + os.path.join(ROOT, ".deps")
+    env["PYTHONPATH"] = REPO + ":" + ROOT + ":" + os.path.join(ROOT, ".deps")
+    env["PGV_REPO"] = REPO
     env["PYTHONDONTWRITEBYTECODE"] = "1"
     env.setdefault("PYTHONHASHSEED", "0")
     env["PARGLARE_VERIF"] = "1"
@@ -311,8 +317,8 @@ def aggregate(prop, tier, seed, plan, shards, dead, wall):
         "wall_s": round(wall, 2),
         "violations": len(by_sig),
     }
-    os.makedirs(os.path.join(ROOT, "evidence"), exist_ok=True)
-    with open(os.path.join(ROOT, "evidence", "%s.json" % prop), "w") as f:
+    os.makedirs(os.path.join(OUT, "evidence"), exist_ok=True)
+    with open(os.path.join(OUT, "evidence", "%s.json" % prop), "w") as f:
         json.dump(ev, f, indent=1, sort_keys=True, default=str)
         f.write("\n")
 
@@ -323,7 +329,7 @@ def aggregate(prop, tier, seed, plan, shards, dead, wall):
         % (prop, tier, seed, evaluations, len(nontrivial), len(shards), wall)
     )
     if by_sig:
-        rdir = os.path.join(ROOT, "replay", prop)
+        rdir = os.path.join(OUT, "replay", prop)
         os.makedirs(rdir, exist_ok=True)
         for i, (sig, vs) in enumerate(by_sig.items()):
             if i >= 20:
